@@ -1,21 +1,38 @@
 """C11 — decided on the session LTS (coq/Model/SessionLTS.v, coq/Props/C11.v); tie = trace validation of real
-Session.run / RPC / RPCReplyListener threads under the deterministic scheduler (tools/harness/sched.py, lts.py)."""
+Session.run / RPC / RPCReplyListener threads under the deterministic scheduler (tools/harness/sched.py, lts.py).
+Real stack (tools/harness/c11_real.py): histories on the wire through the real parser and session read by read, live
+UnixSocketSession threads over a socketpair, and the (block, timeout) space of Manager.take_notification."""
 import os, json, glob
-from harness import lts_check
+from harness import lts_check, c11_real
 from vlib import paths
 ID = 'C11'
 RUNNER = 'LTS'
-COQ_ROOTS = ['Props/C11.v', 'Props/E2E.v', 'GenProps/Session_consts.v']
+COQ_ROOTS = ['Props/C11.v', 'Props/C11_take.v', 'Props/C11_sax.v', 'Props/E2E.v', 'GenProps/Session_consts.v']
 RULE = ('A case is (scenario, schedule): client programs (sync/async requests, take_notification, await-disconnect), a scripted '
         'server (replies in any order, duplicates, unknown/missing ids, notifications, unknown messages, EOF/error) and the list of '
         'scheduler decisions at every synchronisation point (lock acquire, event set/wait, queue put/get, connected read, '
         'read/write/select, close). Small scenarios are enumerated depth-first with a pre-emption bound, larger ones are '
-        'random. Distinct = distinct (scenario, decision list); non-trivial = at least one request was registered.')
+        'random. Distinct = distinct (scenario, decision list); non-trivial = at least one request was registered. '
+        'Real stack, no scheduler (c11_real.py): (a) real_wire - a history (replies in any order, numbered notifications, sizes from '
+        'minimal to 20 kB = several reads, ASCII / multi-byte text, XML declaration, 1.0 delimiters or 1.1 chunks of size 1..5000, '
+        'all 14 profiles, requests made up front or as late as possible) as an octet stream handed to session.parser.parse read by '
+        'read (4096-octet reads of server bursts cut near the end of every multi-read message so that its tail shares a read with '
+        'the messages behind it - a deterministic family of 216 such cases plus generated ones; fixed sizes; random cuts; cuts '
+        'around every terminator; one read); after EVERY read Manager.take_notification(block=False) is polled until None; oracle: '
+        'taken == notifications whose terminator has been read (once, in order, text equal), a request is complete exactly when '
+        'its reply has been read, with its own reply, no exception out of parse, no errback, still connected. (b) real_live - the '
+        'UnixSocketSession thread over a socketpair after a real hello exchange, stream written in bursts with pauses, a blocking '
+        'Manager.take_notification(True, t) consumer started before or after the traffic. (c) real_take - per profile the '
+        '(block, timeout) space of Manager.take_notification: block in {True, False, 1, 0} x timeout in {None, 0, 0.0, 0.05-0.15, '
+        '30} in positional / keyword / default forms, on an empty queue (None at once; None after t, not before, not later than '
+        't + 1 s; untimed blocking take still waiting after 0.2 s and returning the notification sent then; long timeout with an '
+        'arrival inside it) and on a filled queue (head at once for every combination, then empty).')
 ASSUMES = ['CPython executes the code between two instrumented synchronisation points atomically with respect to the other managed threads (GIL + cooperative scheduler)',
            'uuid4 message-ids are unique (fresh-id oracle of the LTS; a trace violating it is rejected by the model)',
            'threading.Event/Lock/queue.Queue/selectors behave as the instrumented stand-ins (tools/harness/sched.py)']
 TRUSTED = ['modelled, not verified: threading, queue, selectors, the in-memory transport; inbound framing is composed with the LTS (Props/E2E.v, byte-level replay of the recorded reads by tools/harness/e2e_check.py; the concrete classifier of message texts Model/Classify.v is a scanner, the theorems hold for every classifier), outbound framing is C02',
-           'tools/harness/sched.py, lts.py, lts_check.py (scheduler, effect log -> label mapping, oracles)']
+           'tools/harness/sched.py, lts.py, lts_check.py (scheduler, effect log -> label mapping, oracles)',
+           'tools/harness/c11_real.py (stream construction with known terminator offsets, wall-clock bounds: at once < 0.5 s, a hang = 2 s)']
 
 def _corpus():
     out = []
@@ -28,17 +45,24 @@ def _corpus():
 
 def run(ctx):
     q = ctx.tier == 'quick'
+    c11_real.check(ctx)
     lts_check.check(ctx, ID, n_random=500 if q else 6000, dfs_bound=2 if q else 3, dfs_cap=350 if q else 6000, corpus=_corpus())
 
 def search(ctx, seeds):
-    return lts_check.search(ctx, ID, seeds)
+    return c11_real.search(ctx) or lts_check.search(ctx, ID, seeds)
 
 def reproduce(finding):
     w = finding['witness']
+    if str(w.get('check', '')).startswith('real_'):
+        from harness import lts
+        lts.uninstall()
+        return c11_real.confirm(w, c11_real.run_case(w)) is not None
     w['spec']['clients'] = [[tuple(op) for op in ops] for ops in w['spec']['clients']]
     w['spec']['server'] = [tuple(a) for a in w['spec']['server']]
     sc = lts_check.run_case(w['spec'], decisions=list(w['decisions']), rng_after=False)
     return lts_check.ORACLES[ID](sc) is not None
 
 def replay(doc):
+    if str(doc['case'].get('check', '')).startswith('real_'):
+        return c11_real.replay(doc)
     return lts_check.replay(doc, ID)
